@@ -108,13 +108,45 @@ func runFilter(c filterCase, t, q []byte) ([]filter.Hit, error) {
 	}
 	ki.Build()
 	f := filter.New(ki, &filter.Params{WordSize: c.K, MinMatch: c.N, MaxError: c.E, TubeOffset: c.Off})
-	chunk := c.Chunk
-	if chunk <= 0 {
-		chunk = 1 << 12
+	// once with the roomy hit store; when the case asks for small runs, a second time with them -
+	// sized so that no more than about a hundred run files are open at once - and the two hit
+	// lists have to agree
+	hits, most, err := filterOnce(c, f, t, qs, 1<<12)
+	if err != nil || c.Chunk <= 0 {
+		return hits, err
 	}
-	m, err := morass.New(filter.Hit{}, "flt", "", chunk, false)
+	chunk := c.Chunk
+	if least := most/100 + 1; chunk < least {
+		chunk = least
+	}
+	small, _, err := filterOnce(c, f, t, qs, chunk)
 	if err != nil {
 		return nil, err
+	}
+	if len(small) != len(hits) {
+		return nil, fmt.Errorf("hit-store-dependence: %d hits with runs of 4096, %d with runs of %d", len(hits), len(small), chunk)
+	}
+	// compared as multisets (the sorter orders hits by its own key only)
+	key := func(h filter.Hit) [3]int { return [3]int{h.From, h.To, h.Diagonal} }
+	cnt := map[[3]int]int{}
+	for _, h := range hits {
+		cnt[key(h)]++
+	}
+	for _, h := range small {
+		if cnt[key(h)] == 0 {
+			return nil, fmt.Errorf("hit-store-dependence: hit %+v is delivered with runs of %d but not with runs of 4096", h, chunk)
+		}
+		cnt[key(h)]--
+	}
+	return small, nil
+}
+
+// filterOnce runs the (optional) earlier query and the query proper through one hit store with
+// the given run size; most is the larger of the two hit counts.
+func filterOnce(c filterCase, f *filter.Filter, t []byte, qs *linear.Seq, chunk int) (hits []filter.Hit, most int, err error) {
+	m, err := morass.New(filter.Hit{}, "flt", "", chunk, false)
+	if err != nil {
+		return nil, 0, err
 	}
 	defer m.CleanUp()
 	if c.PreSeed != 0 && !c.Self {
@@ -126,22 +158,22 @@ func runFilter(c filterCase, t, q []byte) ([]filter.Hit, error) {
 			copy(pre[i:i+40], t[(i*7)%(len(t)-40):])
 		}
 		if err := f.Filter(linear.NewSeq("pre", alphabet.BytesToLetters(pre), alphabet.DNA), false, false, m); err != nil {
-			return nil, err
+			return nil, 0, err
 		}
 		for {
 			var h filter.Hit
 			if err := m.Pull(&h); err != nil {
 				break
 			}
+			most++
 		}
 		if err := m.Clear(); err != nil {
-			return nil, err
+			return nil, 0, err
 		}
 	}
 	if err := f.Filter(qs, c.Self, c.Comp && !c.Self, m); err != nil {
-		return nil, err
+		return nil, 0, err
 	}
-	var hits []filter.Hit
 	for {
 		var h filter.Hit
 		err := m.Pull(&h)
@@ -149,11 +181,14 @@ func runFilter(c filterCase, t, q []byte) ([]filter.Hit, error) {
 			break
 		}
 		if err != nil {
-			return nil, err
+			return nil, 0, err
 		}
 		hits = append(hits, h)
 	}
-	return hits, nil
+	if len(hits) > most {
+		most = len(hits)
+	}
+	return hits, most, nil
 }
 
 func covered(c filterCase, hits []filter.Hit, t0, q0 int) bool {
